@@ -50,7 +50,7 @@ def gen_cases(seed, tier):
     for j in range(nrel):
         cases.append({"cls": "relations", "seed": seed * 1000 + j, "n": 40, "_w": 1})
     for j in range(6 if tier == "quick" else 24):
-        cases.append({"cls": "corrmax", "seed": seed * 1000 + j, "k": j, "_w": 1})
+        cases.append({"cls": "corrmax", "seed": seed * 1000 + j, "k": j, "tier": tier, "_w": 1 if tier == "quick" else 8})
     for j in range(8 if tier == "quick" else 60):
         cases.append({"cls": "shift_waveform", "seed": seed * 1000 + j, "_w": 1})
     cases.append({"cls": "parabolic", "seed": seed, "n": 400 if tier == "quick" else 5000, "_w": 1})
@@ -244,8 +244,11 @@ def run_case(case):
         res.sig = f"relations-{case['seed']}"
     elif cls == "corrmax":
         widths = [2, 2.5, 3, 4, 6, 8]
-        for n in (64, 65, 121, 128):
+        lens = (62, 63, 64, 65, 99, 121, 127, 128) if case.get("tier", "quick") == "quick" else tuple(range(40, 141))
+        for n in lens:      # every residue modulo 4: the zero-lag index of a centred correlation is floor(n/2), which rounding rules easily get wrong
             for a in widths:
+                if 12 * a > n:       # the wavelet (support ~ +-5 widths) and its shifted copy must fit in the window
+                    continue
                 w = ricker(n, a)
                 if case["k"] % 2:
                     w = -w
@@ -265,7 +268,7 @@ def run_case(case):
         res.sig = f"corrmax-{case['k']}"
     elif cls == "shift_waveform":
         # cluster of shifted copies of one multi-channel template: returned shifts undo the applied ones
-        nsp, ntr, ns = int(rng.integers(5, 30)), int(rng.integers(3, 12)), int(rng.choice([121, 128]))
+        nsp, ntr, ns = int(rng.integers(5, 30)), int(rng.integers(3, 12)), int(rng.choice([121, 128, 127, 99, 82]))
         amps = np.exp(-0.5 * ((np.arange(ntr) - ntr // 2) / 1.5) ** 2)
         tmpl = -amps[:, None] * ricker(ns, float(rng.uniform(3, 6)))[None, :]
         applied = rng.uniform(-2, 2, nsp)
